@@ -35,7 +35,7 @@ def run(p):
         pr = props if props != 'own' else own(p)
         res = []
         for one in (pr.split(',') if pr != 'all' else ['all']):
-            cmd = [root + '/bin/mcpcheck', '-property', one, '-repo', d, '-no-evidence', '-whole']
+            cmd = [os.environ.get('MCPCHECK_BIN', root + '/bin/mcpcheck'), '-property', one, '-repo', d, '-no-evidence', '-whole']
             if nonorm: cmd.append('-no-normalise')
             r = subprocess.run(cmd, capture_output=True, text=True, env=env, cwd=root)
             res += [l for l in r.stdout.splitlines() if l.startswith('MUTANT-') or 'load failure' in l or l.startswith('panic') or l.startswith('NORMALISE')]
